@@ -43,6 +43,7 @@ func runG7(r *Repo, rep *Report) {
 	reqName, reqTyps := sig.Params().At(0), sig.Params().At(1)
 	nameOf := r.lookup("derive.(*typesMap).nameOf")
 	getFuncName := r.lookup("derive.(*typesMap).GetFuncName")
+	newNameFn := r.lookup("derive.(*typesMap).newName")
 	eqFn := r.lookup("derive.eq")
 
 	// symbolic environment: variable -> meaning
@@ -134,6 +135,9 @@ func runG7(r *Repo, rep *Report) {
 			if en.mean[o] == "hitName" {
 				return "existing"
 			}
+			if en.mean[o] == "minted" {
+				return "fresh-inline"
+			}
 		case *ast.CallExpr:
 			if getFuncName != nil && callee(info, x) == getFuncName.Fn {
 				return "fresh"
@@ -162,6 +166,25 @@ func runG7(r *Repo, rep *Report) {
 		}
 		s, rest := list[0], list[1:]
 		bind := func(as *ast.AssignStmt) bool {
+			// x := tm.newName(typs)   |   y = x (a copy of a name with a meaning)
+			if len(as.Lhs) == 1 && len(as.Rhs) == 1 {
+				if l0, ok := as.Lhs[0].(*ast.Ident); ok {
+					lo := info.Defs[l0]
+					if lo == nil {
+						lo = info.Uses[l0]
+					}
+					if c, isCall := ast.Unparen(as.Rhs[0]).(*ast.CallExpr); isCall && newNameFn != nil && callee(info, c) == newNameFn.Fn && len(c.Args) == 1 {
+						if id, ok := c.Args[0].(*ast.Ident); ok && info.Uses[id] == reqTyps && lo != nil {
+							en.mean[lo] = "minted"
+							return true
+						}
+					}
+					if rid, isID := ast.Unparen(as.Rhs[0]).(*ast.Ident); isID && lo != nil && en.mean[info.Uses[rid]] != "" {
+						en.mean[lo] = en.mean[info.Uses[rid]]
+						return true
+					}
+				}
+			}
 			// fName, ok := tm.nameOf(typs)   |   ts, ok := tm.funcToTyps[funcName]
 			if len(as.Lhs) == 2 && len(as.Rhs) == 1 {
 				l0, _ := as.Lhs[0].(*ast.Ident)
@@ -315,6 +338,10 @@ func runG7(r *Repo, rep *Report) {
 							en.eff = append(en.eff, "bind(requested,typs)")
 							continue
 						}
+						if kid != nil && vid != nil && en.mean[info.Uses[kid]] == "minted" && info.Uses[vid] == reqTyps {
+							en.eff = append(en.eff, "bind(minted,typs)")
+							continue
+						}
 						en.eff = append(en.eff, "bind(?)")
 						continue
 					}
@@ -338,6 +365,22 @@ func runG7(r *Repo, rep *Report) {
 				return
 			}
 			exec(rest, en, cont)
+			return
+		case *ast.DeclStmt:
+			// var res string: a local without a meaning yet
+			if gd, ok := x.Decl.(*ast.GenDecl); ok && gd.Tok == token.VAR {
+				plain := true
+				for _, sp := range gd.Specs {
+					if vs, ok := sp.(*ast.ValueSpec); !ok || len(vs.Values) != 0 {
+						plain = false
+					}
+				}
+				if plain {
+					exec(rest, en, cont)
+					return
+				}
+			}
+			undecided = "unrecognised declaration at " + r.pos(x.Pos())
 			return
 		case *ast.ReturnStmt:
 			paths = append(paths, g7Path{atoms: en.atoms, outcome: classifyReturn(x, en), effects: en.eff, pos: x.Pos()})
@@ -425,7 +468,13 @@ func runG7(r *Repo, rep *Report) {
 		if v["H"] && v["S"] && hit.outcome == "existing" && wantOut == "requested" {
 			hit.outcome = "requested"
 		}
-		ok := hit.outcome == wantOut && gotReg == wantReg && (wantReg || !anyEff) && (!wantReg || len(hit.effects) == 2)
+		// -autoname resolved in place: a name minted by newName, registered for these types (both tables) and returned is what
+		// GetFuncName does for a miss
+		gotOut := hit.outcome
+		if wantOut == "fresh" && gotOut == "fresh-inline" && len(hit.effects) == 2 && contains(hit.effects, "bind(minted,typs)") && contains(hit.effects, "enqueue(typs)") {
+			gotOut, anyEff = "fresh", false
+		}
+		ok := gotOut == wantOut && gotReg == wantReg && (wantReg || !anyEff) && (!wantReg || len(hit.effects) == 2)
 		if ok {
 			rep.pass("G7")
 			if mask%7 == 0 {
@@ -916,6 +965,34 @@ func g7GetFuncName(r *Repo, rep *Report) {
 		// the name that is registered is the one newName minted
 		if id, ok := setCall.Args[0].(*ast.Ident); !ok || !minted[info.Uses[id]] {
 			registered = false
+		}
+	}
+	// registered in place: tm.funcToTyps[minted] = typs together with tm.typss = append(tm.typss, typs)
+	if setCall == nil && fromNew {
+		var bindStmt, queueStmt ast.Node
+		ast.Inspect(fi.Decl.Body, func(n ast.Node) bool {
+			as, ok := n.(*ast.AssignStmt)
+			if !ok || len(as.Lhs) != 1 || len(as.Rhs) != 1 {
+				return true
+			}
+			switch l := as.Lhs[0].(type) {
+			case *ast.IndexExpr:
+				sel, isSel := ast.Unparen(l.X).(*ast.SelectorExpr)
+				kid, isID := ast.Unparen(l.Index).(*ast.Ident)
+				if isSel && isID && sel.Sel.Name == "funcToTyps" && minted[info.Uses[kid]] {
+					bindStmt = as
+				}
+			case *ast.SelectorExpr:
+				if c, isCall := as.Rhs[0].(*ast.CallExpr); isCall && l.Sel.Name == "typss" && exprStr(c.Fun) == "append" {
+					queueStmt = as
+				}
+			}
+			return true
+		})
+		if bindStmt != nil && queueStmt != nil {
+			rep.pass("G7")
+			rep.sample(map[string]string{"rule": "G7 GetFuncName registers what it returns (in place)", "site": r.pos(bindStmt.Pos())})
+			return
 		}
 	}
 	if fromNameOf && fromNew && registered && setCall != nil {
